@@ -188,6 +188,8 @@ def run():
         for v in range(1, N + 1):
             for cstock, vstock, ctgt, vtgt in (('3.3333 mM', '37 uL', f'{0.7 + v / 100} mM', '11 uL'), ('250 uM', '180 uL', f'{10 + v} uM', '40 uL'),
                                                 ('12.5 mg/mL', '20 uL', f'{1 + v / 10} mg/mL', '5 uL')):
+                if PID == 'C12' and float(ctgt.split()[0]) >= 0.9 * float(cstock.split()[0]):
+                    continue            # a target at or above the stock's concentration is (rightly) refused
                 count += 1
                 try:
                     if PID == 'C05':
